@@ -8,7 +8,7 @@ From C11 Require Import Model Spec Lists SpecFacts Refine.
 Definition write := ((nat * mid) * (daemon * body))%type.
 Definition wr (D : list (nat * decl)) (x : form) : list write :=
   match x with
-  | DFlavor f _ _ _ gets sets =>
+  | DFlavor f _ _ _ gets sets _ =>
       map (fun v => ((f, MGet v), (DPrimary, BGetter v))) (s_acc gets D f) ++
       map (fun v => ((f, MSet v), (DPrimary, BSetter v))) (s_acc sets D f)
   | DMethod f d m id cont => [((f, m), (d, BUser id cont))]
@@ -17,7 +17,7 @@ Definition all_writes (D : list (nat * decl)) (h : list form) : list write := fl
 Definition wkey (w : write) : nat * mid * daemon := (fst w, fst (snd w)).
 Definition form_decl (x : form) : option (nat * decl) :=
   match x with
-  | DFlavor f vars comps keys _ _ => Some (f, {| d_vars := set_all Nat.eqb [] vars; d_comps := comps; d_keys := set_all Nat.eqb [] keys |})
+  | DFlavor f vars comps keys _ _ io => Some (f, {| d_vars := set_all Nat.eqb [] vars; d_comps := comps; d_keys := set_all Nat.eqb [] keys; d_io := io |})
   | DMethod _ _ _ _ _ => None
   end.
 
@@ -36,10 +36,10 @@ Lemma fold_set_slots : forall (mk : nat -> mid) (bd : nat -> body) f vs ss,
   apply_writes (map (fun v => ((f, mk v), (DPrimary, bd v))) vs) (ss_slots ss).
 Proof. induction vs as [| x vs IH]; intros ss; simpl; [reflexivity | rewrite IH; reflexivity]. Qed.
 Lemma sstep_decls : forall ss x, ss_decls (sstep ss x) = match form_decl x with Some p => p :: ss_decls ss | None => ss_decls ss end.
-Proof. intros ss [f vars comps keys gets sets | f d m id cont]; simpl; [rewrite !fold_set_decls; reflexivity | reflexivity]. Qed.
+Proof. intros ss [f vars comps keys gets sets io | f d m id cont]; simpl; [rewrite !fold_set_decls; reflexivity | reflexivity]. Qed.
 Lemma sstep_slots : forall ss x, ss_slots (sstep ss x) = apply_writes (wr (ss_decls (sstep ss x)) x) (ss_slots ss).
 Proof.
-  intros ss [f vars comps keys gets sets | f d m id cont].
+  intros ss [f vars comps keys gets sets io | f d m id cont].
   - rewrite sstep_decls. simpl. rewrite !fold_set_slots. unfold apply_writes. rewrite fold_left_app. reflexivity.
   - reflexivity.
 Qed.
@@ -75,9 +75,9 @@ Proof.
   apply (prec_defined ds (wfd_app later ds W) g y Hy).
 Qed.
 Lemma wr_app_old : forall later ds x, wfd (later ++ ds) ->
-  (match x with DFlavor f _ _ _ _ _ => defined ds f = true | DMethod _ _ _ _ _ => True end) -> wr (later ++ ds) x = wr ds x.
+  (match x with DFlavor f _ _ _ _ _ _ => defined ds f = true | DMethod _ _ _ _ _ => True end) -> wr (later ++ ds) x = wr ds x.
 Proof.
-  intros later ds [f vars comps keys gets sets | f d m id cont] W H; simpl; [| reflexivity].
+  intros later ds [f vars comps keys gets sets io | f d m id cont] W H; simpl; [| reflexivity].
   rewrite !(s_acc_app_old _ later ds f W H). reflexivity.
 Qed.
 
@@ -86,7 +86,7 @@ Lemma wf_from_wfd : forall h ss, wfd (ss_decls ss) -> wf_from ss h = true -> wfd
 Proof.
   induction h as [| x h IH]; intros ss W H; [exact W |]. simpl in H. apply andb_true_iff in H. destruct H as [Hx Hh].
   unfold s_run. simpl. apply IH; [| exact Hh]. rewrite sstep_decls.
-  destruct x as [f vars comps keys gets sets | f d m id cont]; simpl; [| exact W].
+  destruct x as [f vars comps keys gets sets io | f d m id cont]; simpl; [| exact W].
   simpl in Hx. apply andb_true_iff in Hx. destruct Hx as [Hx Hc]. apply andb_true_iff in Hx. destruct Hx as [Hf Hn].
   apply negb_true_iff in Hf, Hn. apply Nat.eqb_neq in Hf. repeat split; [exact Hf | exact Hn | | | exact W];
     rewrite forallb_forall in Hc; specialize (Hc c H); apply andb_true_iff in Hc; destruct Hc as [C1 C2];
@@ -104,7 +104,7 @@ Proof.
   rewrite fold_left_app. f_equal. rewrite sstep_slots. unfold apply_writes. f_equal.
   assert (Hd := s_run_decls h (sstep ss x)). unfold s_run in Hd. rewrite Hd. symmetry. apply wr_app_old.
   - rewrite <- Hd. exact Wfin.
-  - destruct x as [f vars comps keys gets sets | f d m id cont]; [| exact I]. rewrite sstep_decls. simpl. rewrite defined_cons, Nat.eqb_refl. reflexivity.
+  - destruct x as [f vars comps keys gets sets io | f d m id cont]; [| exact I]. rewrite sstep_decls. simpl. rewrite defined_cons, Nat.eqb_refl. reflexivity.
 Qed.
 
 (* ---- the effect of a list of writes on one slot --------------------------------------------------------------------- *)
@@ -199,7 +199,7 @@ Proof.
 Qed.
 Lemma wr_ext : forall D D' x, (forall g, decl_of D g = decl_of D' g) -> length D = length D' -> wr D x = wr D' x.
 Proof.
-  intros D D' [f vars comps keys gets sets | f d m id cont] H Hl; simpl; [| reflexivity].
+  intros D D' [f vars comps keys gets sets io | f d m id cont] H Hl; simpl; [| reflexivity].
   rewrite (s_acc_ext gets D D' f H Hl), (s_acc_ext sets D D' f H Hl). reflexivity.
 Qed.
 Lemma Permutation_flat_map' : forall {T B} (g : T -> list B) l l', Permutation l l' -> Permutation (flat_map g l) (flat_map g l').
